@@ -18,6 +18,7 @@ def build(ctx, cid, seq, lim=U24_MAX):
     rng = ctx.rng
     ids = [3, 70000, 1, 2**32 - 1]
     live = {}
+    pend = {}
     cmds, scripts, exp = [], [], ["auth|" + b"jon".hex()]
     dead_hit = False
     reprep = False
@@ -30,26 +31,30 @@ def build(ctx, cid, seq, lim=U24_MAX):
             exp.append("prepare|" + (b"s%d" % k).hex())
             reprep = reprep or sid in live
             live[sid] = n
+            pend.pop(sid, None)
         elif op == "prep_err":
             cmds.append(("prepare", cmd_prepare(b"bad")))
             scripts.append("p err 1064 6e6f")
             exp.append("prepare|" + b"bad".hex())
         elif op == "exec":
             n = live.get(sid, 1)
-            block = exec_block([False] * n, [(3, False)] * n, [le(j + 1, 4) for j in range(n)])
+            has_long = sid in pend and n >= 1
+            block = exec_block([False] * n, [(3, False)] * n, [le(j + 1, 4) for j in range(n) if not (has_long and j == 0)])
             cmds.append(("execute", cmd_execute(sid, block)))
             if sid not in live:
                 dead_hit = True; break
             scripts.append("x all - done 0 0")
             exp.append("execute|%d" % sid)
-            exp += ["param|3|int:%d" % (j + 1) for j in range(n)]
+            exp += [("param|3|bytes:" + pend[sid].hex()) if (has_long and j == 0) else "param|3|int:%d" % (j + 1) for j in range(n)]
+            pend.pop(sid, None)
         elif op == "long":
-            cmds.append(("longdata", cmd_long_data(sid, 7, b"zz")))     # parameter 7 is never pulled: no effect on delivery
+            cmds.append(("longdata", cmd_long_data(sid, 0, b"zz")))
             if sid not in live:
                 dead_hit = True; break
+            pend[sid] = pend.get(sid, b"") + b"zz"
         elif op == "close":
             cmds.append(("close", cmd_close(sid))); exp.append("close|%d" % sid)
-            live.pop(sid, None)
+            live.pop(sid, None); pend.pop(sid, None)
     if not dead_hit:
         cmds.append(("ping", cmd_ping()))
     c = mk_case(cid, cmds, scripts, lim=lim)
@@ -89,11 +94,9 @@ def run(ctx):
     alphabet = [(op, k) for op in OPS for k in (0, 1)]
     for ln in range(1, maxlen + 1):
         for seq in itertools.product(alphabet, repeat=ln):
-            if ctx.quick() and ln == 4 and rng.random() < 0.7:
-                continue
             i += 1
             cases.append(build(ctx, "c10_%d" % i, list(seq)))
-    ctx.corr["exhaustive"] = not ctx.quick()
+    ctx.corr["exhaustive"] = True
     for _ in range(100 if ctx.quick() else 2000):
         i += 1
         seq = [(rng.choice(OPS + ["prep_ok", "exec"]), rng.randrange(4)) for _ in range(rng.randint(5, 60))]
